@@ -7,14 +7,21 @@ package dagsync_test
 import (
 	"context"
 	"fmt"
+	"sync/atomic"
 	"testing"
 	"time"
 
 	"github.com/ipfs/go-cid"
 	"github.com/ipfs/go-datastore"
 	dssync "github.com/ipfs/go-datastore/sync"
+	"github.com/ipld/go-ipld-prime"
+	"github.com/ipld/go-ipld-prime/fluent"
+	cidlink "github.com/ipld/go-ipld-prime/linking/cid"
+	basicnode "github.com/ipld/go-ipld-prime/node/basic"
 	"github.com/ipni/go-libipni/dagsync"
+	"github.com/ipni/go-libipni/dagsync/ipnisync"
 	"github.com/ipni/go-libipni/dagsync/test"
+	"github.com/ipni/go-libipni/ingest/schema"
 	"github.com/libp2p/go-libp2p/core/peer"
 )
 
@@ -91,6 +98,175 @@ func TestVerifC15AfterClose(t *testing.T) {
 			})
 			cases += 11
 		}
+	}
+	fmt.Printf("CASES %d\n", cases)
+}
+
+// ---------------------------------------------------------------------------
+// Close while syncs are running (scenarios with a block hook that holds a sync).
+
+type verifC15Pub struct {
+	pub      *ipnisync.Publisher
+	lsys     ipld.LinkSystem
+	peerInfo peer.AddrInfo
+	head     ipld.Link
+	n        int
+}
+
+func verifC15NewPub(t *testing.T) *verifC15Pub {
+	srcHost, srcPrivKey := test.MkTestHostPK(t)
+	lsys := test.MkLinkSystem(dssync.MutexWrap(datastore.NewMapDatastore()))
+	pub, err := ipnisync.NewPublisher(lsys, srcPrivKey, ipnisync.WithStreamHost(srcHost))
+	if err != nil {
+		t.Fatal(err)
+	}
+	t.Cleanup(func() { pub.Close() })
+	return &verifC15Pub{pub: pub, lsys: lsys, peerInfo: peer.AddrInfo{ID: srcHost.ID(), Addrs: srcHost.Addrs()}}
+}
+
+func (p *verifC15Pub) extend(t *testing.T) cid.Cid {
+	p.n++
+	n := fluent.MustBuildMap(basicnode.Prototype.Map, 3, func(na fluent.MapAssembler) {
+		na.AssembleEntry("Pub").AssignString(p.peerInfo.ID.String())
+		na.AssembleEntry("Seq").AssignInt(int64(p.n))
+		if p.head != nil {
+			na.AssembleEntry("PreviousID").AssignLink(p.head)
+		}
+	})
+	lnk, err := p.lsys.Store(ipld.LinkContext{}, schema.Linkproto, n)
+	if err != nil {
+		t.Fatal(err)
+	}
+	p.head = lnk
+	c := lnk.(cidlink.Link).Cid
+	p.pub.SetRoot(c)
+	return c
+}
+
+func TestVerifC15CloseDuringSyncs(t *testing.T) {
+	cases := 0
+	ctx := context.Background()
+	dstHost := test.MkTestHost(t)
+	const long = 20 * time.Second
+	notYet := func(what string, ch <-chan struct{}) {
+		select {
+		case <-ch:
+			t.Fatalf("%s returned while a sync it has to wait for was still running", what)
+		case <-time.After(250 * time.Millisecond):
+		}
+	}
+	must := func(what string, ch <-chan struct{}) {
+		select {
+		case <-ch:
+		case <-time.After(long):
+			t.Fatalf("%s did not return", what)
+		}
+	}
+
+	// (1) Close (twice, concurrently) waits for a running explicit sync, whose notification still reaches
+	// the listener before its channel is closed; nothing happens after Close returned.
+	{
+		p := verifC15NewPub(t)
+		lsys := test.MkLinkSystem(dssync.MutexWrap(datastore.NewMapDatastore()))
+		sub, err := dagsync.NewSubscriber(dstHost, lsys, dagsync.StrictAdsSelector(false))
+		if err != nil {
+			t.Fatal(err)
+		}
+		events, cancelEvents := sub.OnSyncFinished()
+		head := p.extend(t)
+		entered, gate := make(chan struct{}), make(chan struct{})
+		var hookCalls int32
+		var closedReturned int32
+		syncDone := make(chan error, 1)
+		go func() {
+			_, err := sub.SyncAdChain(ctx, p.peerInfo, dagsync.ScopedBlockHook(func(peer.ID, cid.Cid, dagsync.SegmentSyncActions) {
+				if atomic.LoadInt32(&closedReturned) != 0 {
+					t.Errorf("block hook called after Close returned")
+				}
+				if atomic.AddInt32(&hookCalls, 1) == 1 {
+					close(entered)
+					<-gate
+				}
+			}))
+			syncDone <- err
+		}()
+		must("the explicit sync reaching its hook", entered)
+		close1, close2 := make(chan struct{}), make(chan struct{})
+		go func() { sub.Close(); atomic.StoreInt32(&closedReturned, 1); close(close1) }()
+		time.Sleep(50 * time.Millisecond)
+		go func() { sub.Close(); close(close2) }()
+		notYet("Close", close1)
+		notYet("a second, concurrent Close", close2)
+		close(gate)
+		select {
+		case err := <-syncDone:
+			if err != nil {
+				t.Fatalf("the explicit sync that was running when Close started failed: %v", err)
+			}
+		case <-time.After(long):
+			t.Fatal("the explicit sync did not finish")
+		}
+		must("Close", close1)
+		must("the second Close", close2)
+		select {
+		case ev, open := <-events:
+			if !open {
+				t.Fatal("the listener's channel was closed before the notification of the sync that Close waited for")
+			}
+			if ev.Cid != head || ev.Err != nil {
+				t.Fatalf("unexpected notification %v", ev)
+			}
+		case <-time.After(long):
+			t.Fatal("no notification for the sync that Close waited for")
+		}
+		select {
+		case _, open := <-events:
+			if open {
+				t.Fatal("extra notification after Close")
+			}
+		case <-time.After(long):
+			t.Fatal("listener channel not closed after Close")
+		}
+		cancelEvents()
+		// explicit syncs after Close are refused
+		if _, err := sub.SyncAdChain(ctx, p.peerInfo); err == nil {
+			t.Fatal("SyncAdChain after Close succeeded")
+		}
+		cases++
+	}
+
+	// (2) Close while one announce-triggered sync is held and another waits for the only concurrency slot
+	{
+		pa, pb := verifC15NewPub(t), verifC15NewPub(t)
+		lsys := test.MkLinkSystem(dssync.MutexWrap(datastore.NewMapDatastore()))
+		entered, gate := make(chan peer.ID, 4), make(chan struct{})
+		sub, err := dagsync.NewSubscriber(dstHost, lsys, dagsync.StrictAdsSelector(false), dagsync.RecvAnnounce(""), dagsync.MaxAsyncConcurrency(1),
+			dagsync.BlockHook(func(pid peer.ID, _ cid.Cid, _ dagsync.SegmentSyncActions) {
+				entered <- pid
+				<-gate
+			}))
+		if err != nil {
+			t.Fatal(err)
+		}
+		ha, hb := pa.extend(t), pb.extend(t)
+		if err := sub.Announce(ctx, ha, pa.peerInfo); err != nil {
+			t.Fatal(err)
+		}
+		select {
+		case <-entered:
+		case <-time.After(long):
+			t.Fatal("the announce-triggered sync never reached its hook")
+		}
+		if err := sub.Announce(ctx, hb, pb.peerInfo); err != nil {
+			t.Fatal(err)
+		}
+		time.Sleep(100 * time.Millisecond) // let the second announcement queue up for the slot
+		closed := make(chan struct{})
+		go func() { sub.Close(); close(closed) }()
+		notYet("Close", closed)
+		close(gate)
+		must("Close with an announce-triggered sync waiting for a slot", closed)
+		cases++
 	}
 	fmt.Printf("CASES %d\n", cases)
 }
